@@ -187,7 +187,8 @@ def check_lifecycle(h, f=None):
                     len(discs), [e['arg'] for e in discs],
                     [e['t'] for e in discs])))
         if not discs:
-            due = [cz for cz in causes if cz['t'] + bound < f.end]
+            due = [cz for cz in causes if cz['t'] + bound < f.end and
+                   not cz.get('optional')]
             if due:
                 cz = min(due, key=lambda x: x['t'])
                 out.append(V('disconnect-missing',
@@ -356,6 +357,12 @@ def _client_causes(f, c, s):
     if getattr(s, 'dropped', None) is not None:
         out.append({'kind': 'ws_drop', 't': s.dropped, 'reasons': terr,
                     'binding': False})
+    if getattr(s, 'upgrade_dropped', None) is not None:
+        # the upgrade socket was lost right behind the probe answer: a
+        # client whose UPGRADE went into it is on a dead WebSocket, one
+        # whose write failed stays on polling
+        out.append({'kind': 'upgrade_socket_lost', 't': s.upgrade_dropped,
+                    'reasons': terr, 'binding': False, 'optional': True})
     for r in f.ss.requests:
         if ('sid=' + s.sid) in r.query and r.seq_done is not None and \
                 r.status is None:
@@ -409,7 +416,8 @@ def check_conduct(h, f=None):
         discs = [e for e in c['events'] if e['ev'] == 'disconnect']
         t_end = discs[0]['t'] if discs else f.end
         troubled = s.silent or getattr(s, 'fail_posts', None) or \
-            f.ss.refuse_all or getattr(s, 'dropped', None) is not None
+            f.ss.refuse_all or getattr(s, 'dropped', None) is not None or \
+            getattr(s, 'upgrade_dropped', None) is not None
         # ---- PONG echo -----------------------------------------------------------
         pongs = list(s.pongs_in)
         if len(pongs) > len(s.pings_out):
@@ -581,6 +589,10 @@ def _check_client_upgrade(f, c, s):
         for att in s.upgrade_attempts:
             fr = [d for (_s, _t, d) in att['frames']]
             if fr[:2] == ['2probe', '5'] and att.get('ponged'):
+                ok = True
+            if fr[:1] == ['2probe'] and att.get('dropped'):
+                # the probe was answered and the connection lost at once:
+                # an UPGRADE written into the dying socket counts as sent
                 ok = True
         if not ok:
             out.append(V('upgrade-handshake', '%s|upgraded-without-handshake'
